@@ -43,7 +43,7 @@ MANIFEST = {
 def run(run):
     run.explanation = EXPLANATION
     run.assumptions += ["filelock.SoftFileLock/FileLock: inter-process mutual exclusion keyed by the lock path"]
-    for r, n in (("C10.R1", 1), ("C10.R2", 1), ("C10.R3", 1), ("C10.R4", 1), ("C10.R5", 5), ("C10.R6", 2)):
+    for r, n in (("C10.R1", 1), ("C10.R2", 1), ("C10.R3", 1), ("C10.R4", 1), ("C10.R5", 3), ("C10.R6", 2)):
         run.floor(r, n)
     project = run.project
     f = project.fn(P + ".PyramidIO.update_image")
@@ -74,6 +74,28 @@ def _lock_provider(project, f, call):
     return None
 
 
+def _lock_factory(project, f, call):
+    """A project function / method that builds and returns the lock (`return SoftFileLock(path)` on every return path)."""
+    if project is None:
+        return None
+    g = common.resolve_callee(project, f, call)
+    if g is None or g is f or any((dotted(d) or "").endswith("contextmanager") for d in g.node.decorator_list):
+        return None
+    rets = [x for x in own_nodes(g.node) if isinstance(x, ast.Return)]
+    if not rets:
+        return None
+    local_locks = {t.id for n in own_nodes(g.node) if isinstance(n, ast.Assign) and isinstance(n.value, ast.Call)
+                   and (dotted(n.value.func) or "").split(".")[-1] in LOCK_CLASSES | NOT_INTERPROCESS for t in n.targets if isinstance(t, ast.Name)}
+    for rt in rets:
+        v = rt.value
+        if isinstance(v, ast.Call) and (dotted(v.func) or "").split(".")[-1] in LOCK_CLASSES | NOT_INTERPROCESS:
+            continue
+        if isinstance(v, ast.Name) and v.id in local_locks:
+            continue
+        return None
+    return g
+
+
 def _lock_exprs(f, project=None):
     """(with-statements whose context is a lock, names bound to lock objects)."""
     lock_names = set()
@@ -94,8 +116,19 @@ def _lock_exprs(f, project=None):
                 elif isinstance(ce, ast.Call) and isinstance(ce.func, ast.Attribute) and ce.func.attr == "acquire" \
                         and isinstance(ce.func.value, ast.Name) and ce.func.value.id in lock_names:
                     withs.append((n, ce))
-                elif isinstance(ce, ast.Call) and _lock_provider(project, f, ce) is not None:
+                elif isinstance(ce, ast.Call) and (_lock_provider(project, f, ce) is not None or _lock_factory(project, f, ce) is not None):
                     withs.append((n, ce))
+    # a lock obtained from a project factory and bound to a name: `lock = self._tile_lock(pos)`
+    for n in own_nodes(f.node):
+        if isinstance(n, ast.Assign) and isinstance(n.value, ast.Call) and _lock_factory(project, f, n.value) is not None:
+            for t in n.targets:
+                if isinstance(t, ast.Name) and t.id not in lock_names:
+                    lock_names.add(t.id)
+                    for m in own_nodes(f.node):
+                        if isinstance(m, ast.With):
+                            for it in m.items:
+                                if isinstance(it.context_expr, ast.Name) and it.context_expr.id == t.id:
+                                    withs.append((m, it.context_expr))
     return withs, lock_names
 
 
@@ -177,7 +210,7 @@ def _r2_r3(run, f, r, ev=None):
     if not ctors:
         # the lock may be taken through a context-manager helper: analyse the helper, with its parameters bound to the call's arguments
         for w, ce in withs:
-            g = _lock_provider(run.project, f, ce) if isinstance(ce, ast.Call) else None
+            g = (_lock_provider(run.project, f, ce) or _lock_factory(run.project, f, ce)) if isinstance(ce, ast.Call) else None
             if g is not None:
                 run.note_func(g)
                 ctors = [c for c in own_calls(g.node) if (dotted(c.func) or "").split(".")[-1] in LOCK_CLASSES | NOT_INTERPROCESS]
@@ -196,6 +229,11 @@ def _r2_r3(run, f, r, ev=None):
                 f_lock = g
                 break
     if not ctors:
+        if not any(isinstance(x, (ast.Yield, ast.YieldFrom)) for x in own_nodes(f.node)):
+            # update_image is no longer the generator that holds the lock itself: the transaction lives in an object it returns
+            run.undecided("C10.R2", f, None, "update_image hands the read-modify-write to %s, which the analysis does not follow" % (
+                [ast.unparse(x.value)[:60] for x in own_nodes(f.node) if isinstance(x, ast.Return) and x.value is not None] or ["another object"])[0], kind="rmw-delegated")
+            return None
         run.violated("C10.R2", f, None, "no lock object is constructed in update_image", kind="no-lock-object")
         return None
     c = ctors[0]
@@ -402,8 +440,10 @@ def _r5(run):
                     if rf == wf:
                         run.violated("C10.R5", f, w.node, "%s reads tile %s and writes the same file back without the update lock (read-modify-write "
                                      "outside update_image)" % (f.short, show(rd.term[2][0])[:40]), kind="rmw-outside-update-image")
-    if n_upd < 5:
-        run.undecided("C10.R5", None, None, "only %d update_image call sites found in worker-reachable code (5 confirmed by hand)" % n_upd,
+    # vacuity guard only: three tilers (TOAST sampling, multi-TAN, multi-WCS) update tiles from workers; how many call sites that
+    # makes depends on how much of their code is shared
+    if n_upd < 3:
+        run.undecided("C10.R5", None, None, "only %d update_image call sites found in worker-reachable code (three tilers update tiles from workers)" % n_upd,
                       kind="floor", construct="<update_image sites>", file="toasty/")
 
 
